@@ -279,6 +279,9 @@ class Shape:
             v = A(0)
             if isinstance(v, tuple) and v[0] == "L" and args[1][0] == "agg" and self.closure_is_identity(args[1]):
                 return v
+            # `.map(str::to_string)` / `.map(String::from)`: a copying function named directly instead of a closure around it
+            if isinstance(v, tuple) and v[0] == "L" and args[1][0] == "fnitem" and str(args[1][1]).rsplit("::", 1)[-1] in ("to_string", "to_owned", "clone", "from", "into"):
+                return v
             if isinstance(v, tuple) and v[0] in ("Some", "None"):
                 raise Unknown("Option::map with a closure")
             raise Unknown("map with a closure that is not a plain copy")
